@@ -135,10 +135,10 @@ PROPS["C15"] = dict(
 PROPS["C16"] = dict(
     level="proof",
     technique="Lean 4 theorems about a cursor-tracking model of SubField decode/encode and the ExtraField::try_parse loop (resynchronisation after a failed sub-field modelled exactly); round-trip, totality (strict decrease of remaining input), ok-iff-clean-chain; differential check incl. salvaged fields",
-    level_text="C16_roundtrip: every well-formed sub-field sequence (short padding only last, 255-padding anywhere, valid keys, sizes within the cap) serialises to raw bytes that try_parse returns unchanged with success; C16_single_strict; C16_first_keys (accessors = first matching sub-field); C16_total: every sub-field read on non-empty input consumes at least one byte, so the loop terminates for every input (fuel |e| always suffices); C16_ok_iff_no_resync; C16_never_fails_tx: the enclosing prefix decode does not look at the extra's content (C16_tx_fails_iff: it fails exactly when the extra exceeds the allocation cap; C16_over_cap: above the cap the raw conversion panics). For ANY bytes: C16_decoder_sound / C16_parsed_wf (whatever is returned is a well-formed sequence, each field decoded from exactly its encoding up to the ignored merge-mining size byte), C16_ok_exact (Ok accounts for every input byte), C16_reparse (idempotence), C16_parse_equations + C16_pre_semantics (accumulator-free characterisation; pre = the maximal chain of successful reads from offset 0), C16_prefix_survives (valid fields in front of any junk are returned unchanged, accessors included), C16_short_padding_not_roundtrip (the WF restriction is necessary), C16_layout_is_spec / C16_roundtrip_spec (the model encoder IS the independent Spec.Extra layout; the u8 size byte never wraps), *_ed25519 instances for the driver's key validity. Model = library on ~15k (quick) generated, mutated and random extras including the full salvaged list after resynchronisation; flag and pre also against an independent grammar reader (Spec.Extra.parse, run time only).",
+    level_text="C16_roundtrip: every well-formed sub-field sequence (short padding only last, 255-padding anywhere, valid keys, sizes within the cap) serialises to raw bytes that try_parse returns unchanged with success; C16_single_strict; C16_first_keys (accessors = first matching sub-field); C16_total: every sub-field read on non-empty input consumes at least one byte, so the loop terminates for every input (fuel |e| always suffices); C16_ok_iff_no_resync; C16_never_fails_tx: the enclosing prefix decode does not look at the extra's content (C16_tx_fails_iff: it fails exactly when the extra exceeds the allocation cap; C16_whole_tx: the same for the whole Transaction decode, any version; C16_over_cap: above the cap the raw conversion panics). For ANY bytes: C16_decoder_sound / C16_parsed_wf (whatever is returned is a well-formed sequence, each field decoded from exactly its encoding up to the ignored merge-mining size byte), C16_ok_exact (Ok accounts for every input byte), C16_reparse (idempotence), C16_parse_equations + C16_pre_semantics (accumulator-free characterisation; pre = the maximal chain of successful reads of the model's own sub-field decoder from offset 0), C16_pre_is_grammar / C16_field_is_grammar (on every input within the cap the independent grammar reader Spec.Extra.parse, which never mentions the model, returns exactly the model's Ok/Err flag and pre), C16_prefix_survives (valid fields in front of any junk are returned unchanged, accessors included), C16_short_padding_not_roundtrip (the short-padding clause of WF is necessary), C16_layout_is_spec / C16_roundtrip_spec (the model encoder IS the independent Spec.Extra layout; the u8 size byte never wraps), C16_tags_are_generated (the model's literal tag bytes equal the regenerated tables), C16_edValid_iff (what the driver's key-validity instance means; every theorem holds for every vk). Model = library on ~17k (quick) generated, mutated and random extras including the full salvaged list after resynchronisation; flag and pre also against the independent grammar reader (equal to the model by C16_pre_is_grammar; against the library at run time, where pre is computed by the harness loop over the library's sub-field decoder and only the flag is an output of try_parse).",
     level_note="Trusted: Lean kernel; model/Rust correspondence differential; public-key validity is a parameter of the theorems (reference Ed25519 acceptance in the driver, C13).",
     design_ref="DESIGN.md §6 C16",
-    rule="generated sequences (every padding size, blob lengths across varint boundaries, 0..129 additional keys incl. invalid ones and one list of 200+ keys, merge-mining depths of every width, one raw extra above 64 KiB), constructible non-well-formed sequences through the library encoder, six mutation kinds, declared lengths around the cap, the cap boundary of the raw conversion, tag-rich random bytes.",
+    rule="generated sequences (every padding size, blob lengths across varint boundaries, 0..129 additional keys incl. invalid ones and one list of 200+ keys, merge-mining depths of every width, one raw extra above 64 KiB), constructible non-well-formed sequences through the library encoder, six mutation kinds, declared lengths around the cap, the cap boundary of the raw conversion, tag-rich random bytes; total lengths 33/34/43/44/45 with a key and a nonce of every fitting length (both try_parse entry points), nonces of 253..257 bytes, merge-mining size bytes 0..42 with exactly / fewer / more bytes; idempotence of try_parse on every case.",
     assumptions=[],
     gen_items=["CAP"],
 )
